@@ -74,21 +74,22 @@ type accRec struct {
 }
 
 type run struct {
-	p       Params
-	rng     *rand.Rand
-	origin  string
-	dir     string
-	path    string
-	l       *sharedport.Listener
-	tcp     net.Listener
-	nd      int
-	fw      []*fwd
-	ac      []*accRec
-	ks      []*atomic.Int32 // 0 idle 1 called 2 returned
-	wg      sync.WaitGroup
-	members []string
-	logMu   sync.Mutex
-	logs    []string
+	p         Params
+	rng       *rand.Rand
+	origin    string
+	dir       string
+	path      string
+	l         *sharedport.Listener
+	tcp       net.Listener
+	nd        int
+	fw        []*fwd
+	ac        []*accRec
+	ks        []*atomic.Int32 // 0 idle 1 called 2 returned
+	wg        sync.WaitGroup
+	members   []string
+	logMu     sync.Mutex
+	logs      []string
+	closeViol string
 }
 
 func (r *run) must() time.Duration {
@@ -335,20 +336,33 @@ func (r *run) forward(ev Ev) error {
 	if ev.X == "close" {
 		_ = uc.Close()
 		f.udsClosed.Store(true)
-	} else {
-		r.wg.Add(1)
-		go func() {
-			defer r.wg.Done()
-			b := make([]byte, 16)
-			for {
-				if _, err := uc.Read(b); err != nil {
-					f.udsClosed.Store(true)
-					return
-				}
-			}
-		}()
 	}
 	return nil
+}
+
+// udsEnded asks the kernel whether the listener has closed its end of the daemon connection
+// (= the handler is done).  A daemon that hung up itself cannot tell.
+func (f *fwd) udsEnded() bool {
+	if f.udsClosed.Load() {
+		return true
+	}
+	rc, err := f.uds.SyscallConn()
+	if err != nil {
+		return true
+	}
+	ended := false
+	_ = rc.Control(func(fd uintptr) {
+		var b [1]byte
+		n, _, err := syscall.Recvfrom(int(fd), b[:], syscall.MSG_PEEK|syscall.MSG_DONTWAIT)
+		if err == syscall.EAGAIN || err == syscall.EWOULDBLOCK || err == syscall.EINTR {
+			return
+		}
+		ended = err != nil || n == 0
+	})
+	if ended {
+		f.udsClosed.Store(true)
+	}
+	return ended
 }
 
 // accept starts Accept call a.
@@ -404,10 +418,28 @@ func (r *run) identify(c net.Conn) (int, string) {
 // probe connection is refused (AdoptFD).  Close itself may go on waiting for handlers.
 func (r *run) closeCall(k int) {
 	r.ks[k-1].Store(1)
+	var before []*fwd // the daemon connections made before this Close call
+	for _, f := range r.fw {
+		if f != nil && !f.refused {
+			before = append(before, f)
+		}
+	}
 	r.wg.Add(1)
 	go func() {
 		defer r.wg.Done()
 		_ = r.l.Close()
+		// "waits for in-flight handler goroutines to finish before returning": at this very
+		// moment the listener has closed its end of every daemon connection
+		for _, f := range before {
+			if !f.udsEnded() {
+				r.logMu.Lock()
+				if r.closeViol == "" {
+					r.closeViol = fmt.Sprintf("Close call %d returned while the handler of d%d (%s) was still running (its daemon connection is still open)", k, f.ev.D, class(f.ev))
+				}
+				r.logMu.Unlock()
+				break
+			}
+		}
 		r.ks[k-1].Store(2)
 	}()
 	waitFor(r.must(), func() bool {
@@ -453,7 +485,7 @@ func (r *run) observe() Snap {
 			s.Ds[i] = Fate{F: "refused"}
 		case to[i+1] != 0:
 			s.Ds[i] = Fate{F: "del", A: to[i+1]}
-		case f.peer.ended.Load() && f.udsClosed.Load():
+		case f.peer.ended.Load() && f.udsEnded():
 			s.Ds[i] = Fate{F: "closed"}
 		default:
 			s.Ds[i] = Fate{F: "queued"}
@@ -544,6 +576,15 @@ func (r *run) diagnose(e *Entry, prefix []Snap, s Snap, upto int) *Diff {
 		seen[a.D] = true
 		if ev := r.fw[a.D-1].ev; ev.V == "drop" {
 			return &Diff{Sig: sig("OnlyWellFormed", class(Ev{H: ev.H, F: ev.F, X: "*"})), Detail: detail}
+		}
+	}
+	if !closeCalled {
+		dead := e.Origin == "listen" && s.Path == "gone"
+		for _, a := range s.As {
+			dead = dead || a.R == "err"
+		}
+		if dead {
+			return &Diff{Sig: sig("NeverKills", "the listener closed without a Close call"), Detail: detail}
 		}
 	}
 	if s.Path == "other" {
@@ -774,6 +815,12 @@ func RunListener(tmp string, e *Entry, nd, na, nk int, p Params) (*Obs, *Diff, e
 // after checks what the snapshots do not show, once the listener is closed and at rest.
 func (r *run) after(e *Entry, final Snap) *Diff {
 	ctxt := fmt.Sprintf("script %s; final [%s]; members: %s", Key(e.Origin, e.Trace), final.String(), strings.Join(r.members, "; "))
+	r.logMu.Lock()
+	cv := r.closeViol
+	r.logMu.Unlock()
+	if cv != "" {
+		return &Diff{Sig: sig("ClosedClean", "Close returns before the handlers are done"), Detail: cv + "; " + ctxt}
+	}
 	// Accept after Close: the error, promptly, every time
 	for i := 0; i < 2; i++ {
 		type ar struct {
@@ -815,7 +862,7 @@ func (r *run) after(e *Entry, final Snap) *Diff {
 			continue
 		}
 		// every handler is done: the daemon connection was closed by the listener
-		if !waitFor(r.must(), f.udsClosed.Load) {
+		if !waitFor(r.must(), f.udsEnded) {
 			return &Diff{Sig: sig("ClosedClean", "daemon connection left open"), Detail: fmt.Sprintf("the unix connection of d%d is still open after Close; %s", i+1, ctxt)}
 		}
 		// "extra fds ... are closed immediately"; what follows a forward on the same connection is discarded
